@@ -104,7 +104,7 @@ def check(ctx):
                     rep.proved("R-C40-alias", f"{QS}:QuantumScript.copy {norm(st)}", "shares only an immutable / cache value", nontrivial=False)
 
     # ---- R-C40-bind ---------------------------------------------------------------------------
-    eng = Engine(ix, TAPE_SPEC, max_depth=6 if ctx.thorough else 3)
+    eng = Engine(ix, TAPE_SPEC, max_depth=8 if ctx.thorough else 4, dispatch_bases=("Operator", "Operator2", "MeasurementProcess"))
     m = ix.module(BNP)
     handlers = []
     for f in ix.funcs_in(m):
